@@ -6,6 +6,9 @@
 // case (capacity policies exact / pooled / stale) wrapped by a length spy; the private parser
 // state is read through the read-only hook VerifSeqState after every Parse call.
 // Sender side: WriteMessage / WriteClose with control payloads of 125 and 126 bytes.
+// Family "declared" (declared.go): frames refused on their declared length alone, which makes
+// declared lengths up to 2^63-1 enumerable; every reply the endpoint writes is decoded by the
+// reference decoder and judged frame by frame (judgeReply), in every family.
 //
 // Deviations from DESIGN §4 C15 (spirit kept):
 //   - "peak bytes requested for message assembly <= L + one frame header" is checked per buffer:
@@ -457,6 +460,7 @@ func recvControl(c *caseSpec, p *vkit.Part) {
 				handled = true
 			}
 		}
+		ri := judgeReply(ep) // everything written back is decoded and judged, not just "closed"
 		switch {
 		case len(r.Panics) > 0:
 			res = "panic " + wsgen.PanicSig(r.Panics[0]) + "|" + r.Panics[0]
@@ -464,13 +468,18 @@ func recvControl(c *caseSpec, p *vkit.Part) {
 			res = fmt.Sprintf("control-over-125-accepted-on-receive op=%x|a %d-byte control frame did not fail the connection", ctlOp, ctlLen)
 		case ctlLen > 125 && handled:
 			res = fmt.Sprintf("control-over-125-handled-on-receive op=%x|the handler of a %d-byte control frame was invoked", ctlOp, ctlLen)
+		case ri.problem != "":
+			res = fmt.Sprintf("close-reply-malformed via=%s|%s (control frame op=%x of %d bytes)", c.Family, ri.problem, ctlOp, ctlLen)
+		case ctlLen > 125 && ri.closes > 0 && ri.code != 1009 && ri.code != 1002:
+			res = fmt.Sprintf("control-over-125-odd-close-code via=%s|close status %d answers a %d-byte control frame (op=%x)", c.Family, ri.code, ctlLen, ctlOp)
+		case ctlLen > 125:
+			// refusal is what the statement asks; which status answers it is recorded
+			p.Outcome(fmt.Sprintf("control-over-125-refused close=%d", ri.code))
 		case ctlLen <= 125 && r.Failed() && ctlOp != wsgen.OpClose:
 			p.Count("under_limit_rejected", 1)
 			p.Outcome("control-<=125-rejected-because-of-L(not judged)")
 		case ctlLen <= 125:
 			p.Outcome("control-<=125-accepted")
-		default:
-			p.Outcome("control-over-125-refused")
 		}
 		if res != "" {
 			sig, desc := split(res)
@@ -770,14 +779,16 @@ func replay(scenario string, input json.RawMessage) string {
 func main() {
 	vkit.Main(&vkit.Spec{
 		Property: "C15", Level: "model_checking",
-		Rule: "one case = (limit L in {1,2,100,1000,1025,5000}, receiver role, allocator capacity policy exact/pooled/stale, handler set OnMessage/OnDataFrame/both, frame list) x one segmentation; frame lists: single text/binary frames of L-1, L, L+1, 2L; every 2- and 3-tuple of fragment sizes over {0,1,L/2,L-1,L,L+1} with no ping / empty ping / 125-byte ping after the first fragment; permessage-deflate messages (zeros, text; flate level 1, 9; one frame or split in two) inflating to L-1, L, L+1, 4L, 1000L; control frames of 124..127 bytes alone and inside a fragmented message; segmentations: one piece, every single cut (wires <= 2 KiB; structural cuts otherwise), byte-at-a-time (<= 4 KiB); send side: WriteMessage/WriteClose of control payloads 0..65536; ReadLimit {64,1024} x read sizes {1,63,64,65,1023,1024,1025} x frame sizes around the limit. A case is non-trivial when the message or a frame is at least L-1 bytes long or a read limit is configured. states = distinct private parser states after the Parse calls, transitions = Parse calls.",
+		Rule: "one case = (limit L in {1,2,100,1000,1025,5000}, receiver role, allocator capacity policy exact/pooled/stale, handler set OnMessage/OnDataFrame/both, frame list) x one segmentation; frame lists: single text/binary frames of L-1, L, L+1, 2L; every 2- and 3-tuple of fragment sizes over {0,1,L/2,L-1,L,L+1} with no ping / empty ping / 125-byte ping after the first fragment; permessage-deflate messages (zeros, text; flate level 1, 9; one frame or split in two) inflating to L-1, L, L+1, 4L, 1000L; control frames of 124..127 bytes alone and inside a fragmented message; family declared: a frame header that announces D payload bytes and is cut off after 0 or 3 of them (refused on the declared length alone), D over {L+1, 10^k-1 and 10^k for k=1..18, 125..127, 65535..65537, 2^31-1, 2^31, 2^32-1, 2^32, 2^40, 2^53, 2^62, 2^63-2, 2^63-1} above L (D <= 65535 also in longer-than-minimal length forms) plus 2^63, 2^63+1, 2^64-1, with L over {1, 100, 1025, 4194304 (default), 999999999999, 2^62, 2^63-2}, as single text/binary frame, first fragment, final/non-final continuation after a first fragment of 0, 1 or min(L-1,100) real bytes, and as ping/pong/close frame alone or inside a message; segmentations: one piece, every single cut (wires <= 2 KiB; structural cuts otherwise), byte-at-a-time (<= 4 KiB); send side: WriteMessage/WriteClose of control payloads 0..65536; ReadLimit {64,1024} x read sizes {1,63,64,65,1023,1024,1025} x frame sizes around the limit. A case is non-trivial when the message or a frame is at least L-1 bytes long or a read limit is configured. states = distinct private parser states after the Parse calls, transitions = Parse calls.",
 		Assumptions: []string{
 			"a message of exactly L bytes may be accepted or rejected (not judged); messages below L that are rejected are counted (under_limit_rejected) but not judged - the statement only forbids delivering/buffering more than L",
 			"'buffered' is observed as (a) the length of the message under assembly after every Parse call (hook VerifSeqState) and (b) the length of every buffer obtained from the allocator, which may not exceed max(L+14, unparsed input bytes legitimately cached)",
 			"with only OnDataFrame set no message is assembled: the limit is then demanded per frame only",
-			"over-limit => Parse error or closed conn, a close frame with status 1009 on the wire, and no OnMessage for that message",
+			"over-limit => Parse error or closed conn, no OnMessage for that message, and the bytes written to the conn decode (reference decoder) into well-formed frames ending with a close frame of status 1009: FIN, no RSV bits, payload <= 125 bytes, minimal length form, masked iff the endpoint is a client, reason valid UTF-8, nothing after it (a malformed reply has the signature close-reply-malformed, a missing or differently coded one over-limit-no-1009)",
+			"an over-long control frame on receive must fail the connection without reaching its handler; the statement names no status for it: a close frame, if written, must be well-formed and carry 1009 or 1002 (recorded as outcome); in a longer-than-minimal length form an over-limit data frame may be answered with 1002 as well; a 64-bit length with the top bit set must fail the connection, its status is not judged",
 			"read limit: cached unparsed input <= ReadLimit + the last read's size at every moment, and a frame larger than that is refused",
 			"'refused on send' is read as WriteMessage/WriteClose returning ErrControlMessageTooBig and writing nothing; the raw WriteFrame is not judged",
+			"family declared, quick tier: allocator policies exact (OnMessage only) and pooled, 0 or 3 payload bytes present; thorough: all three policies x handler sets, 0/1/3/20 bytes present, every double cut, a first fragment of 1500 bytes for limits > 2000",
 			"quick tier: fragment tuples run with policies exact and pooled (stale only differs in buffer content) and every single cut only for wires <= 400 B (structural cuts otherwise); thorough adds stale, all single cuts up to 16 KiB wires for single frames and compressed messages and up to 2100 B for fragment tuples",
 		},
 		Seq: run, ReplaySeq: replay, MinNonTrivial: 1000,
